@@ -10,7 +10,7 @@
    with any amounts and any number of changers (`good_init`). *)
 From Coq Require Import List ZArith NArith Bool.
 From Tele Require Import Gen.Consts Gen.GoFns Model.CounterConc Proofs.CounterWord Proofs.CounterInv Proofs.CounterThms Proofs.GoFnsCounter.
-From Tele Require Import Model.Register Proofs.RegisterFacts Proofs.CounterFault.
+From Tele Require Import Model.Register Proofs.RegisterFacts Proofs.CounterFault Proofs.CounterProgress.
 Import ListNotations.
 Open Scope Z_scope.
 
@@ -103,6 +103,23 @@ Theorem C03_word_ops_are_the_go_code : forall b, 0 <= b < W64 ->
   (forall n, 0 <= n < W64 -> go_counterStateBits_addExtra b n = w_add_extra b n).
 Proof. exact word_ops_are_go. Qed.
 Print Assumptions C03_word_ops_are_the_go_code.
+
+(* No call waits for another goroutine: from EVERY reachable state, a call that
+   is given the processor alone (schedule `repeat i n`) returns within `rank`
+   of its own steps, where rank <= 116 + (the no-op operations of a changer)
+   whatever the other goroutines were doing when they stopped running -- there
+   is no spin-wait and no lock that another goroutine must release.  (Every
+   retry in an arbitrary schedule is a failed CAS, i.e. caused by another
+   goroutine's successful write: the protocol is lock-free.) *)
+Theorem C03_no_call_waits : forall np s0 ts0 sched i t, good_init s0 ts0 ->
+  nth_error (snd (run np sched (s0, ts0))) i = Some t ->
+  exists n, (n <= rank np (fst (run np sched (s0, ts0))) t)%nat /\
+    forall t', nth_error (snd (run np (repeat i n) (run np sched (s0, ts0)))) i = Some t' -> live t' = false.
+Proof. exact solo_completes. Qed.
+Print Assumptions C03_no_call_waits.
+Theorem C03_call_length_bound : forall np s t, (forall k, t_pc t <> CNop k) -> (rank np s t <= rank_bound np)%nat.
+Proof. exact rank_bounded. Qed.
+Print Assumptions C03_call_length_bound.
 
 (* The lock-free registration of counters in the file's list (file.register),
    any number of goroutines, several of which may register the same counter,
